@@ -184,6 +184,9 @@ def parse_criteria(criteria):
             # a comparison with a number holds for numbers only: a text cell (a header above the
             # column), a logical or a blank is not selected - comparing it would raise TypeError
             return lambda a: isinstance(a, number_types) and not isinstance(a, bool) and op(a, val)
+        if isinstance(val, number_types):
+            # <> a number: every cell that is not that number - a logical is none (TRUE == 1 in Python)
+            return lambda a: not (isinstance(a, number_types) and not isinstance(a, bool) and a == val)
         return lambda a: op(a, val)
     else:
         if any(c in val for c in ('?', '*')):
